@@ -444,7 +444,20 @@ def nontrivial(case, io):
 def describe(case):
     return {'events': [_ev_text(e) for e in case['events']]}
 
+def _in_domain(case):
+    ref = RefRun()
+    for e in case['events']:
+        if ref.step(e) is None:
+            break
+    return ref.lifo
+
 def shrink(case):
+    """smaller schedules in which the started generators still form a stack"""
+    for c in _shrink(case):
+        if _in_domain(c):
+            yield c
+
+def _shrink(case):
     evs = case['events']
     ids = sorted({e[1] for e in evs})
     for i in ids:
